@@ -1,4 +1,178 @@
 package main
 
-func (x *Exec) runCrash(h *History) {}
+import (
+	"crypto/sha1"
+	"encoding/json"
+	"os"
+	"sort"
+)
+
+// ---------------------------------------------------------------- crash images (C02)
+
+// recoverySteps is what is done with every crash image: load it, write more, sync, load, close, load.
+func recoverySteps(level string) []Step {
+	if level == "ch" {
+		return []Step{{Ev: "open"}, {Ev: "put", Op: "ins", K: 1, P: 1}, {Ev: "put", Op: "upd", K: 2, P: 2}, {Ev: "sync"}, {Ev: "load"},
+			{Ev: "put", Op: "del", K: 1}, {Ev: "close"}, {Ev: "open"}}
+	}
+	return []Step{{Ev: "load"}, {Ev: "open"}, {Ev: "put", Op: "ins", K: 1, P: 1}, {Ev: "put", Op: "upd", K: 2, P: 2}, {Ev: "sync"}, {Ev: "load"},
+		{Ev: "put", Op: "del", K: 1}, {Ev: "close"}, {Ev: "load"}}
+}
+
+// tearOffsets: the byte prefixes of a write of n bytes that are materialised (1..n-1).
+func tearOffsets(n, maxAll int) []int {
+	if n < 2 {
+		return nil
+	}
+	if n-1 <= maxAll {
+		out := make([]int, 0, n-1)
+		for b := 1; b < n; b++ {
+			out = append(out, b)
+		}
+		return out
+	}
+	set := map[int]bool{}
+	for _, b := range []int{1, 2, 3, 4, 7, 8, 15, 16, 17, 27, 28, 29, 35, 36, 37, 43, 44, 45, n - 3, n - 2, n - 1, n / 2} {
+		if b >= 1 && b < n {
+			set[b] = true
+		}
+	}
+	for i := 1; i <= 12; i++ {
+		set[1+(n-2)*i/13] = true
+	}
+	out := make([]int, 0, len(set))
+	for b := range set {
+		out = append(out, b)
+	}
+	sort.Ints(out)
+	return out
+}
+
+type image struct {
+	exists bool
+	data   []byte
+}
+
+func (im *image) apply(op OpRec, nbytes int) {
+	switch op.Raw {
+	case "create":
+		im.exists, im.data = true, im.data[:0]
+	case "write":
+		end := int(op.Off) + nbytes
+		for len(im.data) < end {
+			im.data = append(im.data, 0)
+		}
+		copy(im.data[op.Off:], op.Data[:nbytes])
+	}
+}
+
+func (x *Exec) runCrash(h *History) {
+	in := newInterner(h)
+	r := x.execute(h, in, true, nil, h.Steps)
+	defer os.RemoveAll(r.dir)
+	for _, op := range r.ops {
+		if op.Path != r.path { // compaction or other files: crash analysis does not apply to this history
+			x.writeHistory(h, r.events)
+			x.stat("crash_skipped", 1)
+			return
+		}
+	}
+	maxAll := x.cfg.MaxAll
+	if maxAll == 0 {
+		maxAll = 16
+	}
+	rec := recoverySteps(h.Level)
+	cache := map[[20]byte]string{} // image -> JSON of the observation
+	type key struct {
+		ev, idx int
+		tear    string
+	}
+	groups := map[key]map[string]int{}
+	order := []key{}
+	kinds := map[key]string{}
+	observe := func(im *image) string {
+		tag := []byte{0}
+		if im.exists {
+			tag[0] = 1
+		}
+		sum := sha1.Sum(append(tag, im.data...))
+		if s, ok := cache[sum]; ok {
+			x.stat("cut_cache_hits", 1)
+			return s
+		}
+		dir := x.freshDir()
+		os.MkdirAll(dir, 0o755)
+		if im.exists {
+			os.WriteFile(dir+"/swamp.hyd", im.data, 0o644)
+		}
+		r2 := x.executeIn(h, in, dir, rec)
+		os.RemoveAll(dir)
+		evs := r2.events
+		obs := Event{"lerr": 0, "lm": make([]int, NKeys), "rec": []Event{}}
+		if len(evs) > 0 && evs[0]["ev"] == "load" {
+			obs["lerr"], obs["lm"] = evs[0]["err"], evs[0]["m"]
+			evs = evs[1:]
+		}
+		for _, e := range evs {
+			e["cuts"] = []any{}
+			if _, ok := e["fk"]; !ok {
+				e["fk"], e["fm"] = "", ""
+			}
+		}
+		obs["rec"] = evs
+		b, _ := json.Marshal(obs)
+		cache[sum] = string(b)
+		x.stat("cut_images", 1)
+		return string(b)
+	}
+	add := func(k key, kind, obs string) {
+		if groups[k] == nil {
+			groups[k] = map[string]int{}
+			order = append(order, k)
+			kinds[k] = kind
+		}
+		groups[k][obs]++
+		x.stat("cuts", 1)
+	}
+	im := &image{}
+	for _, op := range r.ops {
+		if op.Ev >= len(r.events) {
+			break // the clean-up close after the history
+		}
+		k := key{op.Ev, op.Idx, "none"}
+		add(k, op.Kind, observe(im))
+		if op.Raw == "write" {
+			for _, b := range tearOffsets(len(op.Data), maxAll) {
+				t := &image{exists: im.exists, data: append([]byte(nil), im.data...)}
+				t.apply(op, b)
+				add(key{op.Ev, op.Idx, "part"}, op.Kind, observe(t))
+			}
+			im.apply(op, len(op.Data))
+		} else {
+			im.apply(op, 0)
+		}
+	}
+	for _, k := range order {
+		obsList := make([]string, 0, len(groups[k]))
+		for o := range groups[k] {
+			obsList = append(obsList, o)
+		}
+		sort.Strings(obsList)
+		for _, o := range obsList {
+			var cut Event
+			json.Unmarshal([]byte(o), &cut)
+			cut["op"], cut["idx"], cut["tear"], cut["n"] = kinds[k], k.idx, k.tear, groups[k][o]
+			ev := r.events[k.ev]
+			cs, _ := ev["cuts"].([]any)
+			ev["cuts"] = append(cs, cut)
+		}
+	}
+	x.writeHistory(h, r.events)
+}
+
+// executeIn runs steps in an existing directory (a materialised crash image).
+func (x *Exec) executeIn(h *History, in *Interner, dir string, steps []Step) *Run {
+	return x.executeDir(h, in, dir, false, nil, steps)
+}
+
 func (x *Exec) runFault(h *History) {}
